@@ -357,6 +357,11 @@ func (t *Time) UnmarshalText(b []byte) error {
 	if err != nil {
 		return err
 	}
+	// The RFC 850 layout of http.ParseTime accepts any zone abbreviation and
+	// ignores it: only GMT is a valid HTTP-date zone (asctime has none)
+	if strings.Contains(string(b), ",") && !strings.HasSuffix(string(b), " GMT") {
+		return fmt.Errorf("webdav: invalid HTTP date %q: expected a GMT time", b)
+	}
 	*t = Time(tt)
 	return nil
 }
